@@ -1,6 +1,6 @@
 PROP = {
     "level": "proof",
-    "legs": ["c01-sem", "c01-writer", "c13-vm"],
+    "legs": ["c01-sem", "c01-writer", "c13-vm", "c01-frag"],
     "timeout_quick": 600,
     "trusted_base": TB_COMMON + [
         "oracles (set membership of the compiled classes, unicode.ToLower, IsWordChar, IsECMAWordChar) are universally quantified in the theorems; for execution they are evaluated by the running Go toolchain on the runes of each case",
